@@ -184,7 +184,7 @@ func matchOutline(ops []canvasOp, pts []pt, corners []*pt) string {
 // c18Shapes folds the draw methods of rect and ellipse/circle with a recording canvas.
 func c18Shapes(c *core.Check) {
 	p := c.Prog
-	r := c.Rule("R6", "rect and ellipse/circle outlines: every on-curve point of the drawn outline is the one SVG defines (quadrant points of the ellipse; the eight points x+rx, x+width−rx … of the rounded rectangle with rx, ry clamped to half the size; Rectangle(x, y, width, height) without radii), edges are straight, and each quarter arc is a cubic whose control points lie on the tangents between its end points and the outer corner, both at the same fraction of the way", 6)
+	r := c.Rule("R6", "rect and ellipse/circle outlines: every on-curve point of the drawn outline is the one SVG defines (quadrant points of the ellipse; the eight points x+rx, x+width−rx … of the rounded rectangle with rx, ry clamped to half the size; Rectangle(x, y, width, height) without radii), edges are straight, and each quarter arc is a cubic whose control points lie on the tangents between its end points and the outer corner, both at the same fraction of the way", 5)
 	sym := core.SymP
 	run := func(fn *ssa.Function, recvFields map[string]core.AV, attrFields map[string]core.AV, cmp func(op token.Token, x, y core.AV) (bool, bool)) ([]canvasOp, error) {
 		var ops []canvasOp
